@@ -943,3 +943,121 @@ def dict_items(fn, e):
     if isinstance(e, ast.Call) and isinstance(e.func, ast.Name) and e.func.id == "dict" and not e.args and all(k.arg for k in e.keywords):
         return {k.arg: canon_expr(fn, k.value) if fn is not None else canon_ast(k.value) for k in e.keywords}
     return None
+
+
+# ---------------------------------------------------------------- record construction (dict of fields -> Cls(**d) -> attribute stores)
+def record_fields(fn, assume):
+    """Follow how the object a function returns gets its fields.  Understands:  d = dict((f.name, copy.copy(getattr(X, f.name)))
+    for f in fields(X)) and the equivalent loop (base = shallow copy of every field of X);  d[k] = v;  d.update({...} | dict
+    variable);  obj = Cls(**d);  obj.a = v;  obj.a += v;  `if <test>:` decided by assume(test text) -> bool.
+    Returns (record, order) for the returned variable: record maps field -> canonical value text, with '__base__' -> X and
+    ('iadd', text) values for in-place extensions; order lists the fields in the order they were last written.  None when a
+    statement is not understood."""
+    dicts, objs = {}, {}
+    order = []
+
+    def is_copy_pair(k, v, var, X):
+        return _txt(k) == f"{var}.name" and _txt(v) in (f"copy.copy(getattr({X}, {var}.name))", f"copy(getattr({X}, {var}.name))")
+
+    def fields_of(it):
+        if isinstance(it, ast.Call) and isinstance(it.func, ast.Name) and it.func.id == "fields" and len(it.args) == 1 and isinstance(it.args[0], ast.Name):
+            return it.args[0].id
+        return None
+
+    def dict_value(v):
+        # dict(<genexp of (name, copy) pairs over fields(X)>)  /  {f.name: copy.copy(getattr(X, f.name)) for f in fields(X)}
+        if isinstance(v, ast.Call) and isinstance(v.func, ast.Name) and v.func.id == "dict" and len(v.args) == 1 and not v.keywords \
+                and isinstance(v.args[0], (ast.GeneratorExp, ast.ListComp)) and len(v.args[0].generators) == 1:
+            g = v.args[0].generators[0]
+            X = fields_of(g.iter)
+            e = v.args[0].elt
+            if X and isinstance(g.target, ast.Name) and isinstance(e, ast.Tuple) and len(e.elts) == 2 and is_copy_pair(e.elts[0], e.elts[1], g.target.id, X) and not g.ifs:
+                return {"__base__": X}
+        if isinstance(v, ast.DictComp) and len(v.generators) == 1:
+            g = v.generators[0]
+            X = fields_of(g.iter)
+            if X and isinstance(g.target, ast.Name) and is_copy_pair(v.key, v.value, g.target.id, X) and not g.ifs:
+                return {"__base__": X}
+        if isinstance(v, ast.Dict) and all(isinstance(k, ast.Constant) for k in v.keys):
+            return {k.value: _txt(x) for k, x in zip(v.keys, v.values)}
+        if isinstance(v, ast.Call) and isinstance(v.func, ast.Name) and v.func.id == "dict" and not v.args:
+            return {k.arg: _txt(k.value) for k in v.keywords}
+        return None
+
+    def run(stmts):
+        for st in stmts:
+            if isinstance(st, ast.Expr) and isinstance(st.value, ast.Constant):
+                continue
+            if isinstance(st, (ast.Assign, ast.AnnAssign)) and getattr(st, "value", None) is not None:
+                tgt = st.targets[0] if isinstance(st, ast.Assign) else st.target
+                if isinstance(st, ast.Assign) and len(st.targets) != 1:
+                    return False
+                v = st.value
+                if isinstance(tgt, ast.Name):
+                    dv = dict_value(v)
+                    if dv is not None:
+                        dicts[tgt.id] = dv
+                        continue
+                    if isinstance(v, ast.Call) and len(v.keywords) == 1 and v.keywords[0].arg is None and not v.args:
+                        kv = v.keywords[0].value
+                        src = dicts.get(kv.id) if isinstance(kv, ast.Name) else dict_value(kv)
+                        if src is not None:
+                            objs[tgt.id] = dict(src)
+                            objs[tgt.id]["__class__"] = _txt(v.func)
+                            continue
+                    continue  # some other local
+                if isinstance(tgt, ast.Subscript) and isinstance(tgt.value, ast.Name) and tgt.value.id in dicts and isinstance(tgt.slice, ast.Constant):
+                    dicts[tgt.value.id][tgt.slice.value] = _txt(v)
+                    continue
+                if isinstance(tgt, ast.Attribute) and isinstance(tgt.value, ast.Name) and tgt.value.id in objs:
+                    objs[tgt.value.id][tgt.attr] = _txt(v)
+                    order.append(tgt.attr)
+                    continue
+                return False
+            if isinstance(st, ast.AugAssign) and isinstance(st.op, ast.Add) and isinstance(st.target, ast.Attribute) and isinstance(st.target.value, ast.Name) \
+                    and st.target.value.id in objs:
+                objs[st.target.value.id][st.target.attr] = ("iadd", _txt(st.value))
+                order.append(st.target.attr)
+                continue
+            if isinstance(st, ast.Expr) and isinstance(st.value, ast.Call) and isinstance(st.value.func, ast.Attribute) and isinstance(st.value.func.value, ast.Name):
+                recv, meth, call = st.value.func.value.id, st.value.func.attr, st.value
+                if recv in dicts and meth == "update" and len(call.args) == 1:
+                    other = dict_value(call.args[0]) if not isinstance(call.args[0], ast.Name) else dicts.get(call.args[0].id)
+                    if other is None or "__base__" in other:
+                        return False
+                    dicts[recv].update(other)
+                    continue
+                if isinstance(st.value.func.value, ast.Attribute):
+                    pass
+                return False
+            if isinstance(st, ast.Expr) and isinstance(st.value, ast.Call) and isinstance(st.value.func, ast.Attribute) and isinstance(st.value.func.value, ast.Attribute) \
+                    and isinstance(st.value.func.value.value, ast.Name) and st.value.func.value.value.id in objs and st.value.func.attr == "extend" and len(st.value.args) == 1:
+                objs[st.value.func.value.value.id][st.value.func.value.attr] = ("iadd", _txt(st.value.args[0]))
+                order.append(st.value.func.value.attr)
+                continue
+            if isinstance(st, ast.For) and isinstance(st.target, ast.Name) and fields_of(st.iter) and len(st.body) == 1 and isinstance(st.body[0], ast.Assign) \
+                    and isinstance(st.body[0].targets[0], ast.Subscript) and isinstance(st.body[0].targets[0].value, ast.Name) \
+                    and st.body[0].targets[0].value.id in dicts and not dicts[st.body[0].targets[0].value.id] \
+                    and is_copy_pair(st.body[0].targets[0].slice, st.body[0].value, st.target.id, fields_of(st.iter)):
+                dicts[st.body[0].targets[0].value.id]["__base__"] = fields_of(st.iter)
+                continue
+            if isinstance(st, ast.If):
+                t = assume(_txt(st.test))
+                if t is None:
+                    return False
+                if run(st.body if t else st.orelse) is False:
+                    return False
+                continue
+            if isinstance(st, ast.Return):
+                if isinstance(st.value, ast.Name) and st.value.id in objs:
+                    dicts["<return>"] = objs[st.value.id]
+                    return True
+                return False
+            return False
+        return None
+
+    body = [x for x in fn.body]
+    r = run(body)
+    if r is not True:
+        return None
+    return dicts["<return>"], order
